@@ -48,7 +48,7 @@ SHARD = 80
 DRIVER_TIMEOUT = 1500
 COQ_FILES = ["theories/C07/Props.v", "theories/C07/Link.v", "theories/C07/Proofs.v",
              "theories/C07/ProofsA.v", "theories/C07/ProofsB.v", "theories/C07/ProofsC.v", "theories/C07/ProofsD.v",
-             "theories/C07/ProofsE.v", "theories/C07/Explore.v", "theories/C07/Tests.v", "theories/C07/ExploreTests.v"]
+             "theories/C07/ProofsE.v", "theories/C07/ProofsF.v", "theories/C07/Explore.v", "theories/C07/Tests.v", "theories/C07/ExploreTests.v"]
 # ExploreTests.v (exhaustive small-bound explorations, ~40 s) is built but kept out of Props.v's cone
 COQ_TARGETS = ["theories/C07/Props.v", "theories/C07/Link.v", "theories/C07/ExploreTests.v", "theories/C07/Exec.v"]
 RULE = ("scripts for MapReduce/MapReduceChan/MapReduceVoid/ForEach/Finish/FinishVoid: 0-20 items (64 in the big "
@@ -449,7 +449,12 @@ def classify(case, obs):
     acts = [a["op"] for it in case["items"] for a in it["acts"]]
     cand = None
     if kind == "panic" and out.get("p") == -1:
-        cand = ("send_on_closed", "spec_wo_outcome")
+        # the race: the reducer's write began (rw, no matching rd) before any cancel had completed and before the
+        # context was cancelled - otherwise the guard had to drop the value and the panic is something else
+        rws = [i for i, e in enumerate(tr) if e[0] == "rw"]
+        rds = sum(1 for e in tr if e[0] == "rd")
+        if len(rws) == rds + 1 and case["ctx"] != "pre" and not any(e[0] in ("ce", "cx") for e in tr[:rws[-1]]):
+            cand = ("send_on_closed", "spec_wo_outcome")
     elif kind in ("ret", "twice") and case["ctx"] == "none" and "cancel" not in acts and "cancelnil" not in acts:
         first_p = next((i for i, e in enumerate(tr) if e[0] in ("pn", "gp", "rp")), None)
         ret = next((i for i, e in enumerate(tr) if e[0] == "ret"), len(tr))
